@@ -194,5 +194,39 @@ fn negative_ttl_of(ttl: u32, soa: &SOA) -> (r: u32)
 //%expr crates/proto/src/op/dns_response.rs :: impl DnsResponse :: negative_ttl :: "(ttl)" .. "(soa.minimum)"
 //%end
 }
+// expression-level: the negative TTL a cached NoRecords error reports after `elapsed` seconds (Entry::updated_ttl, error
+// branch): "every TTL it reports equals the ... stored TTL minus the whole seconds elapsed (floored at zero)"
+fn negative_ttl_after(negative_ttl: &mut Option<u32>, elapsed: u32)
+    ensures match *old(negative_ttl) { Some(t) => *final(negative_ttl) == Some(if t >= elapsed { (t - elapsed) as u32 } else { 0u32 }), None => *final(negative_ttl) is None }
+{
+//%expr crates/resolver/src/cache.rs :: impl Entry :: updated_ttl :: "if let Some(ttl) = negative_ttl {" .. "}"
+//%mutant floor_at_zero_lost "ttl.saturating_sub(elapsed)" => "ttl.wrapping_sub(elapsed)"
+//%end
+}
+
+// expression-level: ResponseCache::clamp_positive_ttls, the body of the per-record loop -- "every TTL it reports equals
+// the PER-TYPE clamped stored TTL ...": each record is clamped with the bounds of ITS OWN type, not the query's
+pub struct VpRecord { pub rtype: RecordType, pub ttl: u32 }
+impl VpRecord { pub fn record_type(&self) -> (r: RecordType) ensures r == self.rtype { self.rtype } }
+pub struct VpTtlCfg { pub vp: u64 }
+pub uninterp spec fn secs_bounds(c: VpTtlCfg, t: RecordType) -> (u32, u32);
+impl VpTtlCfg {
+    // TtlConfig::positive_ttl_bounds_secs: positive_response_ttl_bounds(t) in whole seconds (kernel `positive_bounds` above)
+    #[verifier::external_body] pub fn positive_ttl_bounds_secs(&self, t: RecordType) -> (r: (u32, u32)) ensures r == secs_bounds(*self, t) { unimplemented!() }
+}
+pub struct VpCache { pub ttl_config: VpTtlCfg }
+#[verifier::external_body] pub fn vp_u32_clamp(v: u32, lo: u32, hi: u32) -> (r: u32) requires lo <= hi ensures r == (if v < lo { lo } else if v > hi { hi } else { v }) { v.clamp(lo, hi) }
+impl VpCache {
+    fn clamp_one_record(&self, record: &mut VpRecord)
+        requires secs_bounds(self.ttl_config, old(record).rtype).0 <= secs_bounds(self.ttl_config, old(record).rtype).1   // configuration precondition (Ord::clamp panics otherwise)
+        ensures final(record).rtype == old(record).rtype,
+            final(record).ttl == ({ let b = secs_bounds(self.ttl_config, old(record).rtype); let v = old(record).ttl; if v < b.0 { b.0 } else if v > b.1 { b.1 } else { v } }),
+    {
+//%expr crates/resolver/src/cache.rs :: impl ResponseCache :: clamp_positive_ttls :: "let (min_secs, max_secs) = self" .. "record.ttl = record.ttl.clamp(min_secs, max_secs);"
+//%sub1 "record.ttl.clamp(min_secs, max_secs)" => "vp_u32_clamp(record.ttl, min_secs, max_secs)" # R-shim: Ord::clamp on u32
+//%end
+    }
+}
+
 } // verus!
 fn main() {}
